@@ -259,13 +259,49 @@ class NPProxy:
         if _has_sym(a):
             return core.sym_min(list(real_np.asarray(a, dtype=object).flat))
         return real_np.min(a, *args, **kw)
-    nanmin = amin = min
+    amin = min
 
     def max(self, a, *args, **kw):
         if _has_sym(a):
             return core.sym_max(list(real_np.asarray(a, dtype=object).flat))
         return real_np.max(a, *args, **kw)
-    nanmax = amax = max
+    amax = max
+
+    def nanmin(self, a, *args, **kw):
+        if _has_sym(a):
+            vals = [v for v in real_np.asarray(a, dtype=object).flat if not _isnanf(v)]
+            return core.sym_min(vals) if len(vals) > 1 else vals[0]
+        return real_np.nanmin(a, *args, **kw)
+
+    def nanmax(self, a, *args, **kw):
+        if _has_sym(a):
+            vals = [v for v in real_np.asarray(a, dtype=object).flat if not _isnanf(v)]
+            return core.sym_max(vals) if len(vals) > 1 else vals[0]
+        return real_np.nanmax(a, *args, **kw)
+
+    def _argext(self, a, better):
+        flat = list(real_np.asarray(a, dtype=object).flat)
+        best = None
+        for i, v in enumerate(flat):
+            if _isnanf(v):
+                continue
+            if best is None or bool(better(v, flat[best])):      # strict: first extremum wins, like numpy
+                best = i
+        if best is None:
+            raise ValueError('All-NaN slice encountered')
+        return best
+
+    def nanargmax(self, a, *args, **kw):
+        if _has_sym(a):
+            return self._argext(a, lambda v, b: v > b)
+        return real_np.nanargmax(a, *args, **kw)
+    argmax = nanargmax
+
+    def nanargmin(self, a, *args, **kw):
+        if _has_sym(a):
+            return self._argext(a, lambda v, b: v < b)
+        return real_np.nanargmin(a, *args, **kw)
+    argmin = nanargmin
 
     def clip(self, a, lo, hi):
         if _has_sym(a) or _has_sym(lo) or _has_sym(hi):
@@ -295,8 +331,14 @@ class NPProxy:
         return core.sym_int(a) if isinstance(a, SN) else real_np.int64(a)
 
 
+def _isnanf(v):
+    return isinstance(v, (float, real_np.floating)) and v != v
+
+
 def ite(c, x, y):
     if isinstance(c, SB):
+        if _isnanf(x) or _isnanf(y):
+            return x if bool(c) else y      # a blank on one side: fork
         if not isinstance(x, (SN, SB)) and not isinstance(y, (SN, SB)) and not (core.isnum(x) and core.isnum(y)):
             return x if bool(c) else y
         if isinstance(x, SB) or isinstance(y, SB) or isinstance(x, (bool, real_np.bool_)):
